@@ -493,7 +493,13 @@ static void e_ext(KSI_CTX *ctx, int m, const unsigned char *p, size_t n, int var
 }
 
 static void e_pubfile(KSI_CTX *ctx, int m, const unsigned char *p, size_t n, int variant, uint64_t h) {
-	KSI_PublicationsFile *pf = NULL; int res;
+	KSI_PublicationsFile *pf = NULL; int res; 
+#ifdef C12_PKI_VERIFY
+	const int pkiv = 1;    /* replay driver only (precise leak suppression for OpenSSL needs slow unwinding) */
+#else
+	const int pkiv = 0;
+#endif
+
 	res = KSI_PublicationsFile_parse(ctx, p, n, &pf);
 	if (res == KSI_OK && pf != NULL) {
 		KSI_PublicationsHeader *hd = NULL; KSI_LIST(KSI_CertificateRecord) *certs = NULL; KSI_LIST(KSI_PublicationRecord) *pubs = NULL; KSI_PKISignature *ps = NULL; size_t sdl = 0, i;
@@ -564,7 +570,18 @@ static void e_pubfile(KSI_CTX *ctx, int m, const unsigned char *p, size_t n, int
 				KSI_Signature_free(s);
 			}
 		}
-		if ((variant & 2) && KSI_PublicationsFile_serialize(ctx, pf, &raw, &raw_len) == KSI_OK && raw) { touch(raw, raw_len); KSI_free(raw); }
+		/* PKI verification of the file (no trust anchor is configured: the answer is an error, the walk over the signed range
+		 * and the PKCS#7 blob is what the sanitizers watch), before and after the object re-serialized itself */
+		if (pkiv) (void)KSI_PublicationsFile_verify(pf, ctx);
+		if ((variant & 2) && KSI_PublicationsFile_serialize(ctx, pf, &raw, &raw_len) == KSI_OK && raw) {
+			size_t sdl2 = 0;
+			touch(raw, raw_len);
+			/* the signed range ends where the signature record (tag 0x704, 16-bit header) of the re-serialized file begins */
+			if (KSI_PublicationsFile_getSignedDataLength(pf, &sdl2) == KSI_OK && (sdl2 + 4 > raw_len || (unsigned char)raw[sdl2] != 0x87 || (unsigned char)raw[sdl2 + 1] != 0x04))
+				oracle_fail("pubfile:signed-length-stale-after-serialize", "after KSI_PublicationsFile_serialize the signed data length is %zu but the signature record of the %zu byte file does not start there", sdl2, raw_len);
+			KSI_free(raw);
+			if (pkiv) (void)KSI_PublicationsFile_verify(pf, ctx);
+		}
 	}
 	see_errors(ctx, &h);
 	KSI_PublicationsFile_free(pf);
